@@ -216,6 +216,13 @@ def run(ctx, res):
     append_iteration(prog, res)
     if format_literals(prog, res) < 1:
         raise AnalysisBroken("no format-string call sites found in tiff.cpp")
+    from .. import adopt
+    sets = [g for g in prog.all_funcs() if g.name.endswith("Tiff::set")]
+    if not sets:
+        raise AnalysisBroken("Tiff::set not found")
+    for g in sets:
+        adopt.rule_set_adopts(prog, res, g)
+    res.require_min("R-SET-ADOPTS", 1)
     res.require_min("FINALISE-SIM", 2)
     res.require_min("T-EXH", 6)
     res.require_min("T-CONST", 2)
